@@ -76,16 +76,22 @@ class Wikicode(StringMixIn):
 
     @staticmethod
     def _instances(value):
-        """Yield *value*, then copies of it, for use at several places.
+        """Return an iterator over *value*, then copies of it, for several places.
 
         A node put at two places would be one object shared by both, whether
         it is given by itself, in a Wikicode object or in a list, and an
         iterator or a file can only be read once.
         """
-        value = parse_anything(value)
-        yield value
-        while True:
-            yield copy.deepcopy(value)
+        # Read the value now, not when the first copy is asked for: it may be
+        # a view of the list that is about to be edited
+        nodes = list(parse_anything(value).nodes)
+
+        def instances():
+            yield nodes
+            while True:
+                yield copy.deepcopy(nodes)
+
+        return instances()
 
     @staticmethod
     def _slice_replace(code, index, old, new):
@@ -446,9 +452,9 @@ class Wikicode(StringMixIn):
                 if exact:
                     context.insert(index.start, next(values))
                 else:
-                    obj = str(obj)
+                    obj = str(parse_anything(obj))
                     self._slice_replace(
-                        context, index, obj, str(parse_anything(value)) + obj
+                        context, index, obj, str(parse_anything(next(values))) + obj
                     )
 
     def insert_after(self, obj, value, recursive=True):
@@ -472,9 +478,9 @@ class Wikicode(StringMixIn):
                 if exact:
                     context.insert(index.stop, next(values))
                 else:
-                    obj = str(obj)
+                    obj = str(parse_anything(obj))
                     self._slice_replace(
-                        context, index, obj, obj + str(parse_anything(value))
+                        context, index, obj, obj + str(parse_anything(next(values)))
                     )
 
     def replace(self, obj, value, recursive=True):
@@ -505,7 +511,7 @@ class Wikicode(StringMixIn):
                     context.insert(index.start, next(values))
                 else:
                     self._slice_replace(
-                        context, index, str(obj), str(parse_anything(value))
+                        context, index, str(parse_anything(obj)), str(parse_anything(next(values)))
                     )
 
     def append(self, value):
@@ -539,7 +545,7 @@ class Wikicode(StringMixIn):
                     for _ in range(index.start, index.stop):
                         context.nodes.pop(index.start)
                 else:
-                    self._slice_replace(context, index, str(obj), "")
+                    self._slice_replace(context, index, str(parse_anything(obj)), "")
 
     def matches(self, other):
         """Do a loose equivalency test suitable for comparing page names.
